@@ -55,7 +55,7 @@ FLOW_ACTIONS = [
 FLOW_SLICES = {"quick": ["q1", "q2", "q3"], "thorough": ["q1", "q2", "q3", "t1", "t2", "t3"]}
 # slices whose functions are only model-checked (Impl |= oracle), not replayed: none in quick
 FLOW_REPLAY_LIMIT = {"quick": 10**9, "thorough": 400000}
-FLOW_BATCH = 2500
+FLOW_BATCH = 2000
 
 
 def universe() -> list[dict]:
@@ -200,16 +200,23 @@ def flow_adjudicate(obs: list[dict], parallel: int = 6) -> tuple[dict, dict]:
     return core.adjudicate("ConstraintFlowTrace", "ConstraintFlowTrace.cfg", lines, batch=FLOW_BATCH, parallel=parallel, timeout=3000)
 
 
-def flow_judge(check: core.Check, cases: list[dict], label: str, wave: int = 30000) -> dict[str, int]:
+def flow_judge(check: core.Check, cases: list[dict], label: str, wave: int = 30000, selftest: bool = False) -> dict[str, int]:
     """Observe and adjudicate in waves (observations carry the recorded runs: memory is bounded by one wave)."""
     counts: dict[str, int] = {}
     fl = check.cov.setdefault("flow", {})
     wall = fl.setdefault("wall_s", {})
     for w0 in range(0, len(cases), wave):
         t0 = time.time()
-        obs = flow_observe(cases[w0 : w0 + wave], first_tid=w0 + 1)
+        extra = [_flow_selftest_case()] if selftest and w0 == 0 else []
+        obs = flow_observe(cases[w0 : w0 + wave] + extra, first_tid=w0 + 1)
+        lines = []
+        if extra:   # the binding self-test rides along with the first wave (corrupted copies of one real observation)
+            lines = _flow_selftest_lines(obs.pop())
         t1 = time.time()
-        verdicts, stats = flow_adjudicate(obs, parallel=6 if check.tier == "quick" else 8)
+        verdicts, stats = flow_adjudicate(obs + lines, parallel=8)
+        if extra:
+            _flow_selftest_verdicts(verdicts)
+            stats["observations"] -= len(lines)
         wall["observe"] = round(wall.get("observe", 0) + t1 - t0, 1)
         wall["adjudicate"] = round(wall.get("adjudicate", 0) + time.time() - t1, 1)
         check.add_trace_stats(stats)
@@ -240,28 +247,45 @@ def flow_judge(check: core.Check, cases: list[dict], label: str, wave: int = 300
     return counts
 
 
-def flow_selftest_binding() -> None:
-    """Corrupt recorded fields of one real flow observation and confirm that TLC flags each corruption."""
+def _flow_selftest_case() -> dict:
     I, S = {"k": "typed", "c": "int"}, {"k": "typed", "c": "str"}
     isinst = {"kind": "isinstance", "cls": ["int"], "lits": [], "t": {"k": "union", "ms": []}, "op": "", "n": 0, "neg": False, "subs": []}
     none = {"c": "NoneType", "v": "None", "items": []}
     truthy = dict(isinst, kind="truthy", cls=[])
     tok = lambda t, c=truthy, d=none: {"t": t, "c": c, "d": d}  # noqa: E731
     # ok = isinstance(x, int); if flag(): x = "a"; if ok: U(6, x)
-    case = {"decl": {"k": "union", "ms": [I, S]},
+    return {"decl": {"k": "union", "ms": [I, S]},
             "toks": [tok("save", isinst), tok("ifflag"), tok("asg", d={"c": "str", "v": "a", "items": []}), tok("end"), tok("ifok"), tok("use"), tok("end")]}
-    (base,) = flow_observe([case], procs=1)
-    # the inferred types of all four lines are written by hand (the self-test must not depend on the tree under test):
-    # the guard drops the stale constraint, x is int | str | Literal['a'] in the branch
-    a = dict(base, tid=1, inf=[{"u": 6, "t": {"k": "union", "ms": [I, S, {"k": "known", "o": {"c": "str", "v": "a", "items": []}}]}}])
-    b = dict(base, tid=2, inf=[{"u": 6, "t": I}])                                     # the stale narrowing: 'a' is lost
-    c = dict(base, tid=3, inf=[{"u": 6, "t": {"k": "union", "ms": [I, S, {"k": "known", "o": none}]}}])   # widened
-    d = dict(base, tid=4, runs=base["runs"][1:])                                      # a CPython run withheld
-    verdicts, _ = flow_adjudicate([a, b, c, d], parallel=1)
-    ok = (1 not in verdicts and "viol:FlowN1" in verdicts.get(2, []) and "viol:FlowN2" in verdicts.get(3, [])
-          and "oracle:runs" in verdicts.get(4, []))
+
+
+SELFTEST_TID = 900000000
+
+
+def _flow_selftest_lines(base: dict) -> list[dict]:
+    """Corrupt recorded fields of one real flow observation (TLC must flag each corruption).  The inferred types of all
+    four lines are written by hand: the self-test must not depend on the tree under test."""
+    I, S = {"k": "typed", "c": "int"}, {"k": "typed", "c": "str"}
+    none = {"c": "NoneType", "v": "None", "items": []}
+    # the guard drops the stale constraint: x is int | str | Literal['a'] in the branch
+    a = dict(base, tid=SELFTEST_TID + 1, inf=[{"u": 6, "t": {"k": "union", "ms": [I, S, {"k": "known", "o": {"c": "str", "v": "a", "items": []}}]}}])
+    b = dict(base, tid=SELFTEST_TID + 2, inf=[{"u": 6, "t": I}])                                     # the stale narrowing: 'a' is lost
+    c = dict(base, tid=SELFTEST_TID + 3, inf=[{"u": 6, "t": {"k": "union", "ms": [I, S, {"k": "known", "o": none}]}}])   # widened
+    d = dict(a, tid=SELFTEST_TID + 4, runs=base["runs"][1:])                                          # a CPython run withheld
+    return [a, b, c, d]
+
+
+def _flow_selftest_verdicts(verdicts: dict) -> None:
+    mine = {k - SELFTEST_TID: verdicts.pop(k) for k in list(verdicts) if k > SELFTEST_TID}
+    ok = (1 not in mine and "viol:FlowN1" in mine.get(2, []) and "viol:FlowN2" in mine.get(3, [])
+          and mine.get(4, []) == ["oracle:runs"])
     if not ok:
-        raise core.MachineryError(f"flow binding self-test failed: {verdicts}")
+        raise core.MachineryError(f"flow binding self-test failed: {mine}")
+
+
+def flow_selftest_binding() -> None:
+    (base,) = flow_observe([_flow_selftest_case()], procs=1)
+    verdicts, _ = flow_adjudicate(_flow_selftest_lines(base), parallel=1)
+    _flow_selftest_verdicts(verdicts)
 
 
 def flow_start(check: core.Check) -> dict:
@@ -308,10 +332,8 @@ def flow_finish(check: core.Check, started: dict) -> None:
     for (cfg, inv), r in sens_results:
         if r.violated != inv or (inv is None and not r.ok):
             raise core.MachineryError(f"flow sensitivity self-test {cfg}: expected {inv} to be violated, got {r.violated} / {r.error}")
-    t2 = time.time()
-    flow_selftest_binding()
     fl = check.cov.setdefault("flow", {})
-    fl["wall_s"] = {"tlc_slices_coverage_sensitivity (overlapping the Narrowing TLC runs)": round(t1 - t0, 1), "binding_selftest": round(time.time() - t2, 1)}
+    fl["wall_s"] = {"tlc_slices_coverage_sensitivity (overlapping the Narrowing TLC runs)": round(t1 - t0, 1)}
     fl["sensitivity"] = (
         "InvFlow is violated when the Impl model's origin guard is reversed (the seeded-change family) or removed, when a loop body is "
         "visited once, and (FlowN2) when an assignment keeps the old definition nodes; InvFlowStrict (no deviation class) is violated on "
@@ -360,7 +382,7 @@ def flow_finish(check: core.Check, started: dict) -> None:
         if c["fakes"] > 0 or c["drops"] > 0:
             check.nontrivial(_flow_digest(c))
     plain = [{"decl": c["decl"], "toks": c["toks"]} for c in cases]
-    fl["verdict_counts"] = flow_judge(check, plain, "tlc-flow-" + check.tier)
+    fl["verdict_counts"] = flow_judge(check, plain, "tlc-flow-" + check.tier, selftest=True)
     fl["rule"] = (
         "functions enumerated by TLC (ConstraintFlow.tla generator: every token sequence within the bounds of each slice, no dead code, "
         "no empty blocks, ok bound before it is tested, at most one loop level), each model-checked (InvFlow) and replayed through the real "
@@ -477,3 +499,5 @@ def selftest_binding(check: core.Check) -> None:
     if not ok:
         raise core.MachineryError(f"binding self-test failed: {verdicts}")
     print("selftest_binding: corrupted neg / pos / holds fields are flagged (viol:N1-neg, viol:N2-pos, oracle:holds); the untouched line passes")
+    flow_selftest_binding()
+    print("selftest_binding (flow): stale narrowing / widened type / withheld CPython run are flagged (viol:FlowN1, viol:FlowN2, oracle:runs); the untouched line passes")
